@@ -7,7 +7,7 @@ import bt_impl
 import rd_impl
 from bt_impl import spec_str
 
-NAMES = ["A", "A", "B", "Check", "Check*", "Check**", "x~y", "Go^Home", "A*", "B", "long~name~here", "^", "A^B", "A~B", "Go~Home", "x^y"]   # incl. names differing only by blank vs newline
+NAMES = ["A", "A", "B", "Check", "Check*", "Check**", "x~y", "Go^Home", "A*", "B", "long~name~here", "^", "A^B", "A~B", "Go~Home", "x^y", "Is%^Holding", "x%y"]   # incl. names differing only by blank vs newline
 
 
 def viol(clause, detail, **sig):
@@ -80,7 +80,7 @@ class C20(Prop):
                     elif r < 0.75:
                         ops.append("setbb %s %s" % (rng.choice(bt_gen.KEYS), rng.choice(bt_gen.VALS)))
                     ops.append("render")
-                names = {m[1]: rng.choice(["A", "A", "B*", "x y", "two\nlines", "n%d" % m[1]])
+                names = {m[1]: rng.choice(["A", "A", "B*", "x y", "two\nlines", "win\r\nlines", "n%d" % m[1]])
                          for m in bt_impl.spec_nodes(spec)}
                 out.append(Scenario("bt", "C20_%s_%d" % (tier[0], i), ["tree " + spec_str(spec)], ops,
                                     {"spec": spec, "names": names}))
